@@ -19,6 +19,7 @@ import (
 	"path/filepath"
 	"sort"
 	"strings"
+	"sync"
 	"time"
 
 	"golang.org/x/tools/go/ssa"
@@ -33,7 +34,13 @@ type replayResult struct {
 	Test      string      `json:"go_test,omitempty"`
 	Log       string      `json:"log,omitempty"`
 	Tried     int         `json:"inputs_tried,omitempty"`
+	Evaluated int         `json:"inputs_evaluated,omitempty"` // inputs that satisfied the precondition and whose outputs were checked
+	Distinct  int         `json:"distinct_nontrivial,omitempty"`
+	Sample    interface{} `json:"sample,omitempty"`
 }
+
+// replayMu: set while replays run concurrently (C09); held by a replay except during its go test run
+var replayMu *sync.Mutex
 
 // ReplayCtx is attached to every obligation of a function run.
 type ReplayCtx struct {
@@ -44,6 +51,8 @@ type ReplayCtx struct {
 	Part partition
 	Tags string
 	Repo string
+	// Setup: Go statements run at the start of the replay test (configuration switches such as supportAdx = false)
+	Setup string
 }
 
 // concrete value trees mirror the Value shapes: *big.Int | bool | []interface{}
@@ -348,6 +357,9 @@ func (rp *replayPlan) testSource(inputs []*concreteInput) string {
 	}
 	var b strings.Builder
 	fmt.Fprintf(&b, "func TestGcvReplay(t *testing.T) {\n")
+	if rp.ctx.Setup != "" {
+		fmt.Fprintf(&b, "\t%s\n", rp.ctx.Setup)
+	}
 	for k, in := range inputs {
 		fmt.Fprintf(&b, "\tfunc() {\n")
 		fmt.Fprintf(&b, "\t\tdefer func() { if r := recover(); r != nil { fmt.Printf(\"GCVOUT %d PANIC %%v\\n\", r) } }()\n", k)
@@ -476,6 +488,79 @@ func (rp *replayPlan) runTest(src string, scratch string) (map[int]string, strin
 	return res, log
 }
 
+// runTestBatch runs several generated replay tests of one package in a single go test: the test functions are
+// renamed TestGcvReplay_J<n>, their output lines are tagged with the job number, the import blocks are merged.
+func (rp *replayPlan) runTestBatch(srcs []string, scratch string) ([]map[int]string, string) {
+	imports := map[string]bool{}
+	var bodies []string
+	pkgLine := ""
+	for n, src := range srcs {
+		i := strings.Index(src, "import (\n")
+		j := strings.Index(src, "\n)\n")
+		if i < 0 || j < 0 {
+			continue
+		}
+		pkgLine = src[:i]
+		for _, ln := range strings.Split(src[i+len("import (\n"):j], "\n") {
+			if strings.TrimSpace(ln) != "" {
+				imports[ln] = true
+			}
+		}
+		body := src[j+len("\n)\n"):]
+		body = strings.Replace(body, "func TestGcvReplay(", fmt.Sprintf("func TestGcvReplay_J%d(", n), 1)
+		body = strings.ReplaceAll(body, "\"GCVOUT ", fmt.Sprintf("\"GCVOUT J%d.", n))
+		bodies = append(bodies, body)
+	}
+	var imps []string
+	for ln := range imports {
+		imps = append(imps, ln)
+	}
+	sort.Strings(imps)
+	all := pkgLine + "import (\n" + strings.Join(imps, "\n") + "\n)\n" + strings.Join(bodies, "\n")
+	ctx := rp.ctx
+	rel := strings.TrimPrefix(ctx.Pkg.Pkg.Path(), "github.com/consensys/gnark-crypto/")
+	dir := filepath.Join(ctx.Repo, rel)
+	os.MkdirAll(scratch, 0o755)
+	tf := filepath.Join(scratch, "zz_gcv_replay_test.go")
+	os.WriteFile(tf, []byte(all), 0o644)
+	ov := map[string]interface{}{"Replace": map[string]string{filepath.Join(dir, "zz_gcv_replay_test.go"): tf}}
+	ob, _ := json.Marshal(ov)
+	of := filepath.Join(scratch, "overlay.json")
+	os.WriteFile(of, ob, 0o644)
+	args := []string{"test", "-v", "-overlay", of, "-vet=off", "-count=1", "-timeout", "170s", "-run", "^TestGcvReplay_J"}
+	if ctx.Tags != "" {
+		args = append(args, "-tags", ctx.Tags)
+	}
+	args = append(args, ".")
+	cctx, cancel := context.WithTimeout(context.Background(), 180*time.Second)
+	defer cancel()
+	cmd := exec.CommandContext(cctx, "go", args...)
+	cmd.Dir = dir
+	cmd.Env = append(os.Environ(), "GOFLAGS=-mod=mod", "GOPROXY=off", "GOSUMDB=off", "GOTOOLCHAIN=local")
+	var out bytes.Buffer
+	cmd.Stdout = &out
+	cmd.Stderr = &out
+	cmd.Run()
+	res := make([]map[int]string, len(srcs))
+	for i := range res {
+		res[i] = map[int]string{}
+	}
+	for _, line := range strings.Split(out.String(), "\n") {
+		if strings.HasPrefix(line, "GCVOUT J") {
+			f := strings.SplitN(line, " ", 3)
+			var n, k int
+			if _, err := fmt.Sscanf(f[1], "J%d.%d", &n, &k); err == nil && len(f) == 3 && n < len(res) {
+				res[n][k] = f[2]
+			}
+		}
+	}
+	log := out.String()
+	if len(log) > 3000 {
+		log = log[len(log)-3000:]
+	}
+	return res, log
+}
+
 // evaluate checks requires (on inputs) and every ensures clause on (inputs, outputs). Returns the violated
 // clause names; ok=false if the input does not satisfy the precondition or cannot be evaluated.
 func (rp *replayPlan) evaluate(in *concreteInput, outJSON string) (violated []string, ok bool, note string) {
@@ -508,7 +593,9 @@ func (rp *replayPlan) evaluate(in *concreteInput, outJSON string) (violated []st
 	if ringFP != nil {
 		F.ModQ = ringFP.Q
 	}
+	v.specOnlyFrames = true
 	fr := v.newFrame(fn, nil)
+	v.specOnlyFrames = false
 	fr.top = true
 	fr.c = c
 	mk := func(objs []cval) (*State, map[string]Value, []*Object) {
@@ -709,6 +796,12 @@ func (rp *replayPlan) evaluate(in *concreteInput, outJSON string) (violated []st
 			continue
 		}
 		// residual formula over ghost witnesses / uninterpreted spec functions: is it satisfiable at all?
+		if sat, decided := satByCandidates(F, t); decided {
+			if !sat {
+				violated = append(violated, e.Name)
+			}
+			continue
+		}
 		script := F.Script(&Query{Name: "replay-eval", Hyps: nil, Goal: F.Not(t)}, false)
 		r := solve0(script, os.TempDir(), "replay-eval", 20, "")
 		if r.Status == "unsat" {
@@ -770,7 +863,7 @@ func replayModel(repo string, o *Obligation, dir, id string) *replayResult {
 		return nil
 	}
 	if strings.Contains(ctx.Tags, "portable") {
-		ctx = &ReplayCtx{V: ctx.V, Pkg: ctx.Pkg, Fn: ctx.Fn, C: ctx.C, Part: ctx.Part, Tags: "purego", Repo: ctx.Repo}
+		ctx = &ReplayCtx{V: ctx.V, Pkg: ctx.Pkg, Fn: ctx.Fn, C: ctx.C, Part: ctx.Part, Tags: "purego", Repo: ctx.Repo, Setup: ctx.Setup}
 	}
 	rp := newReplayPlan(ctx)
 	if rp == nil {
@@ -823,7 +916,35 @@ func replayModel(repo string, o *Obligation, dir, id string) *replayResult {
 		}
 	}
 	src := rp.testSource(inputs)
+	if replayBatch != nil {
+		// batch mode (C09): the caller runs the sources of many replays of one package in a single go test and
+		// finishes each replay with its share of the output
+		replayBatch(&preparedReplay{rp: rp, inputs: inputs, sources: sources, src: src})
+		return nil
+	}
+	if replayMu != nil {
+		replayMu.Unlock() // the go test run uses none of the shared state
+	}
 	outs, log := rp.runTest(src, scratch)
+	if replayMu != nil {
+		replayMu.Lock()
+	}
+	return finishReplay(&preparedReplay{rp: rp, inputs: inputs, sources: sources, src: src}, outs, log)
+}
+
+// preparedReplay: a replay whose inputs and test source exist; finishReplay evaluates the contract on the outputs.
+type preparedReplay struct {
+	rp      *replayPlan
+	inputs  []*concreteInput
+	sources []string
+	src     string
+}
+
+// replayBatch: when set, replayModel hands its prepared replay over instead of running it
+var replayBatch func(*preparedReplay)
+
+func finishReplay(p *preparedReplay, outs map[int]string, log string) *replayResult {
+	rp, inputs, sources := p.rp, p.inputs, p.sources
 	res := &replayResult{Tried: len(inputs)}
 	if len(outs) == 0 {
 		res.Log = "replay test produced no output:\n" + log
@@ -834,13 +955,34 @@ func replayModel(repo string, o *Obligation, dir, id string) *replayResult {
 		keys = append(keys, k)
 	}
 	sort.Ints(keys)
+	seenIn := map[string]bool{}
 	for _, k := range keys {
 		viol, ok, note := rp.evaluate(inputs[k], outs[k])
 		if !ok {
 			if k == 0 && sources[0] == "solver-model" {
 				res.Log += "model input not usable: " + note + "\n"
 			}
+			if k < 2 && os.Getenv("GCV_DEBUG_REPLAY") != "" {
+				fmt.Fprintf(os.Stderr, "replay input %d not evaluated: %s\n", k, note)
+			}
 			continue
+		}
+		res.Evaluated++
+		{
+			var ov []interface{}
+			for _, o := range inputs[k].objs {
+				ov = append(ov, cvalJSON(o))
+			}
+			enc, _ := json.Marshal([]interface{}{ov, scalarsJSON(rp, inputs[k])})
+			key := string(enc)
+			nontrivial := strings.ContainsAny(strings.NewReplacer("\"0\"", "", "0", "").Replace(key), "123456789")
+			if !seenIn[key] && nontrivial {
+				seenIn[key] = true
+				res.Distinct++
+				if res.Sample == nil {
+					res.Sample = map[string]interface{}{"function": rp.ctx.Fn.Name(), "partition": rp.ctx.Part.label, "setup": rp.ctx.Setup, "objects": rp.objNames, "values": ov, "scalars": scalarsJSON(rp, inputs[k]), "outputs": outs[k]}
+				}
+			}
 		}
 		if len(viol) > 0 {
 			res.Confirmed = true
@@ -1355,4 +1497,81 @@ func pathKey(p []PE) string {
 		}
 	}
 	return sb.String()
+}
+
+// satByCandidates decides a residual formula that is a positive combination (and / or) of equations, each linear in
+// one and the same integer variable (an existential ghost such as the Montgomery quotient): any solution satisfies
+// one of the equations, so the candidates are the integer solutions of the single equations. decided = false when
+// the formula has another shape (the solver is asked then).
+func satByCandidates(F *Factory, t *Term) (sat, decided bool) {
+	var eqs []*Term
+	ok := true
+	var walk func(x *Term)
+	walk = func(x *Term) {
+		switch x.Op {
+		case OAnd, OOr:
+			for _, a := range x.Args {
+				walk(a)
+			}
+		case OEq:
+			if x.Args[0].S == SInt {
+				eqs = append(eqs, x)
+			} else {
+				ok = false
+			}
+		case OTrue, OFalse:
+		default:
+			ok = false
+		}
+	}
+	walk(t)
+	if !ok || len(eqs) == 0 {
+		return false, false
+	}
+	vars := map[*Term]bool{}
+	var collect func(x *Term)
+	collect = func(x *Term) {
+		if x.Op == OVar {
+			vars[x] = true
+		}
+		for _, a := range x.Args {
+			collect(a)
+		}
+	}
+	collect(t)
+	if len(vars) != 1 {
+		return false, false
+	}
+	var kv *Term
+	for x := range vars {
+		kv = x
+	}
+	saved := F.Distribute
+	F.Distribute = true
+	defer func() { F.Distribute = saved }()
+	for _, e := range eqs {
+		d := F.Sub(e.Args[0], e.Args[1]) // a*K + b == 0
+		b0 := F.Subst(d, map[*Term]*Term{kv: F.I64(0)})
+		b1 := F.Subst(d, map[*Term]*Term{kv: F.I64(1)})
+		b2 := F.Subst(d, map[*Term]*Term{kv: F.I64(2)})
+		if b0.Op != OConst || b1.Op != OConst || b2.Op != OConst {
+			return false, false
+		}
+		a := new(big.Int).Sub(b1.K, b0.K)
+		if new(big.Int).Sub(b2.K, b1.K).Cmp(a) != 0 {
+			return false, false // not linear in the variable
+		}
+		if a.Sign() == 0 {
+			continue
+		}
+		q, r := new(big.Int).QuoRem(new(big.Int).Neg(b0.K), a, new(big.Int))
+		if r.Sign() != 0 {
+			continue
+		}
+		if F.Subst(t, map[*Term]*Term{kv: F.Int(q)}).IsTrue() {
+			return true, true
+		}
+	}
+	// no candidate works; equations that do not mention the variable were folded to constants already
+	return F.Subst(t, map[*Term]*Term{kv: F.I64(0)}).IsTrue(), true
 }
